@@ -194,6 +194,42 @@ theorem xyz_repaired_safety_complete (N : Nat) (hN : 1 ≤ N) (frames : List Xyz
 example : (1 ≤ 2) ∧ (∀ f ∈ witness, f.WF 2) ∧ [37, 42, 88].Pairwise (· ≤ ·) := by
   refine ⟨by decide, witness_wf, by decide⟩
 
+/-! ## non-ASCII text
+
+The content is bytes; '\n' is the only structural byte.  All bytes of UTF-8 multi-byte characters are
+≥ 0x80, so they can neither end a line nor separate tokens: the theorems above and below hold verbatim for
+trajectories with arbitrary non-ASCII text in the comment line, atom names and header texts, and for
+cuts inside a multi-byte character (`XyzF.WF`/`LmpF.WF` put no condition on those bytes). -/
+
+theorem text_nonascii_inert (c : Char) (h : 128 ≤ c.toNat) : c ≠ '\n' ∧ isBlank c = false :=
+  nonascii_not_structural c h
+
+/-- "1\n a = 5 Å\nCα 1.0 2.0 3.0\n" as bytes (Å = c3 85, α = ce b1) -/
+def wU : XyzF :=
+  { cnt := ['1', '\n'],
+    cmt := [' ', 'a', ' ', '=', ' ', '5', ' ', '\xc3', '\x85', '\n'],
+    atoms := [['C', '\xce', '\xb1', ' ', '1', '.', '0', ' ', '2', '.', '0', ' ', '3', '.', '0', '\n']] }
+
+theorem wU_wf : wU.WF 1 where
+  cnt := isLine_of _ ['1'] rfl (by decide)
+  cntTok := ⟨['1'], [], by decide, by decide⟩
+  cmt := isLine_of _ [' ', 'a', ' ', '=', ' ', '5', ' ', '\xc3', '\x85'] rfl (by decide)
+  natoms := rfl
+  atoms := by
+    intro a ha
+    simp only [wU, List.mem_cons, List.not_mem_nil, or_false] at ha
+    subst ha
+    exact ⟨isLine_of _ ['C', '\xce', '\xb1', ' ', '1', '.', '0', ' ', '2', '.', '0', ' ', '3', '.', '0'] rfl (by decide), by decide, by decide⟩
+
+/-- cuts inside Å (byte 10) and inside α (byte 14), then the complete 28-byte frame twice -/
+example : (∀ f ∈ [wU, wU], f.WF 1) ∧
+    pollAll (xyzReader .repaired) (xyzContent [wU, wU]) [10, 14, 28, 38, 42, 56] 0
+      = .ok [[], [], [wU.decode], [], [], [wU.decode]] := by
+  refine ⟨?_, by decide⟩
+  intro f hf
+  simp only [List.mem_cons, List.not_mem_nil, or_false] at hf
+  rcases hf with rfl | rfl <;> exact wU_wf
+
 /-! ## the LAMMPS reader
 
 `LmpF.WF N`: complete lines; line 4 starts with the integer `N ≥ 1`; three box lines of two or three
@@ -426,5 +462,40 @@ theorem trr_guard_needs_small_header :
   intro h
   have := h.1
   omega
+
+/-- **no TRR frame is withheld** (heterogeneous frames included): once the header size has been learned,
+    a frame that is completely visible is yielded by the next two guard evaluations — the data guard waits
+    for the frame's *own* data size, taken from its own header. -/
+theorem trr_no_frame_withheld (frames : List TFrame) (H : Nat) (hH : ∀ f ∈ frames, f.hsize = H) (hpos : 0 < H)
+    (st : TSt) (hinv : TInv frames H st) (hl : st.headerSize = H) (hp : st.pending = none)
+    (f : TFrame) (hf : frames[st.k]? = some f) (size : Nat) (hs : tOffset frames (st.k + 1) ≤ size) :
+    TEv.yield st.k ∈ trrRun frames [size, size] st :=
+  trr_two_ticks_yield frames H hH hpos st hinv hl hp f hf size hs
+
+/-- frames with different blocks (x+v+f, then x only, then x+v): each guard uses the frame's own size -/
+example : trrRun [⟨92, 936⟩, ⟨92, 360⟩, ⟨92, 648⟩] [1000, 1027, 1028, 1479, 1480, 1572, 2219, 2220] tInit
+    = [.read 0 92 1000, .wait, .read 92 936 1028, .yield 0, .read 1028 92 1479,
+       .read 1120 360 1480, .yield 1, .read 1480 92 1572, .wait, .read 1572 648 2220, .yield 2] := by decide
+
+/-! ### TRR header decoding at byte level (`read_trr_header`, `is_double`) -/
+
+/-- **header bytes → frame size**: for both byte orders and both precisions, the header GROMACS writes
+    (magic 1993, (13, 12), "GMX_trn_file", 13 ints < 2³¹, two reals) is decoded to exactly its integers;
+    the byte order and precision are recognised; 76 + 2·(4|8) bytes are consumed — so the sizes the guard
+    machine `trrRun` works with are functions of the header bytes: header size 84/92, data size
+    box+vir+pres+x+v+f of *this* header. -/
+theorem trr_header_bytes (little dbl : Bool) (ns : List Nat) (hlen : ns.length = 13)
+    (hb : ∀ n ∈ ns, n < 2147483648) (hd : isDouble (ns.map Int.ofNat) = .ok dbl)
+    (reals : List Nat) (hr : reals.length = 2 * (if dbl then 8 else 4)) (rest : List Nat) :
+    ∃ h, trrHeader (encHeader little ns reals ++ rest) = .ok (h, rest)
+      ∧ h.little = little ∧ h.double = dbl ∧ h.ints = ns.map Int.ofNat
+      ∧ h.frame = ⟨76 + 2 * (if dbl then 8 else 4), (dataSize (ns.map Int.ofNat)).toNat⟩ :=
+  ⟨_, trrHeader_encHeader little dbl ns hlen hb hd reals hr rest, rfl, rfl, rfl, rfl⟩
+
+/-- 12 atoms, double precision, box + x + v, written little-endian, followed by 3 further bytes -/
+example : isDouble ([0, 0, 72, 0, 0, 0, 0, 288, 288, 0, 12, 5, 0].map Int.ofNat) = .ok true ∧
+    (trrHeader (encHeader true [0, 0, 72, 0, 0, 0, 0, 288, 288, 0, 12, 5, 0] (List.replicate 16 7) ++ [1, 2, 3])).map
+      (fun r => (r.1.frame.hsize, r.1.frame.dsize, r.1.little, r.1.double, r.2)) = .ok (92, 648, true, true, [1, 2, 3]) := by
+  refine ⟨by decide, by decide⟩
 
 end Infretis.C13
